@@ -342,3 +342,38 @@ Proof.
   destruct (tb2 i j =? 1)%Z; [apply IH; intros; apply H; lia|].
   destruct (tb2 i j =? 2)%Z; [apply IH; intros; apply H; lia|reflexivity].
 Qed.
+
+(* a row invariant carried through the dialign fill: if row 0 satisfies [RI 0] and every new row
+   satisfies [RI i] whenever all completed rows satisfy theirs, every row of the result does *)
+Section FillDInv.
+  Variable V : Type.
+  Variable row0 : nat -> V.
+  Variable col0 : nat -> V.
+  Variable cellD : list (list V) -> nat -> nat -> V -> V -> V -> V.
+  Variable RI : nat -> list V -> Prop.
+  Hypothesis RI_step : forall i done, done <> [] -> length done = S i ->
+    (forall k, k < length done -> RI (S i - 1 - k) (nth k done [])) ->
+    RI (S i) (next_row col0 (cellD done) (S i) (hd [] done)).
+
+  Lemma rowsD_inv : forall n i done,
+    done <> [] -> length done = i ->
+    (forall k, k < length done -> RI (i - 1 - k) (nth k done [])) ->
+    forall k, k < i + n -> RI k (nth k (rowsD col0 cellD n i done) []).
+  Proof.
+    induction n as [|n IH]; intros i done NE L OK k Hk; cbn [rowsD].
+    - rewrite rev_nth by lia. replace (length done - S k) with (i - 1 - k) by lia.
+      assert (E : k = i - 1 - (i - 1 - k)) by lia. rewrite E at 1. apply OK. lia.
+    - destruct i as [|i]; [destruct done; [congruence|discriminate]|].
+      apply (IH (S (S i)) (next_row col0 (cellD done) (S i) (hd [] done) :: done)); [discriminate|cbn [length]; lia| |lia].
+      intros k' Hk'. destruct k' as [|k'].
+      + cbn [nth]. replace (S (S i) - 1 - 0) with (S i) by lia. apply RI_step; assumption.
+      + cbn [nth]. replace (S (S i) - 1 - S k') with (S i - 1 - k') by lia. apply OK. cbn [length] in Hk'. lia.
+  Qed.
+
+  Theorem fillD_inv N M : RI 0 (map row0 (seq 0 (S M))) ->
+    forall k, k <= N -> RI k (nth k (fillD row0 col0 cellD N M) []).
+  Proof.
+    intros R0 k Hk. unfold fillD. apply (rowsD_inv N 1 [map row0 (seq 0 (S M))]); [discriminate|reflexivity| |lia].
+    intros k' Hk'. cbn [length] in Hk'. assert (k' = 0) by lia. subst. exact R0.
+  Qed.
+End FillDInv.
